@@ -690,10 +690,26 @@ def sequential_read(fmt, simfile, rp):
     mode = rp.get('mode', 'for')
     out = []
     exc = None
+    tells = []
+
+    def _tell(step_exact):
+        # the record counter: strictly increasing over the records handed out, and exactly +1 per read_structure() call
+        # whether the call returned a record or refused a damaged one
+        try:
+            t = reader.tell()
+        except Exception as e:
+            raise Violation(f'exception-escaped:{type(e).__name__}', f'{fmt}: tell() raised {e!r} during {mode} reading')
+        if tells and (t <= tells[-1] or (step_exact and t != tells[-1] + 1)):
+            raise Violation('record-counter-wrong', f'{fmt}: tell() went {tells[-1]} -> {t} during {mode} reading (call {len(tells) + 1})')
+        if not tells and step_exact and t != 1:
+            raise Violation('record-counter-wrong', f'{fmt}: tell() is {t} after the first read_structure() call')
+        tells.append(t)
+
     try:
         if mode == 'for':
             for r in reader:
                 out.append(r)
+                _tell(False)
         elif mode == 'read':
             out = reader.read()
         elif mode == 'readn':
@@ -706,18 +722,22 @@ def sequential_read(fmt, simfile, rp):
             while True:
                 try:
                     out.append(next(reader))
+                    _tell(False)
                 except StopIteration:
                     break
         elif mode == 'structure':
             while True:
                 try:
                     out.append(reader.read_structure(current=False))
+                    _tell(True)
                 except EOFError:
                     break
                 except (ValueError, LookupError):
-                    pass   # the caller's own loop skips what iteration skips
+                    _tell(True)   # the caller's own loop skips what iteration skips
     except NoProgress:
         raise Violation('no-progress', f'reader issued more than {rp.get("budget")} raw reads without finishing')
+    except Violation:
+        raise
     except RuntimeError as e:
         if 'StopIteration' in str(e) or isinstance(e.__cause__, StopIteration):
             exc = e
